@@ -276,6 +276,8 @@ class ExcelInPython:
                         last_valid_index = index + 1
                     else:
                         return last_valid_index
+                # the lookup value is not smaller than any key: the last row is the answer
+                return last_valid_index
             case match_type if match_type < 0:
                 last_valid_index = '#N/A'
                 for index, value in enumerate(lookup_array):
@@ -285,6 +287,7 @@ class ExcelInPython:
                         last_valid_index = index + 1
                     else:
                         return last_valid_index
+                return last_valid_index
 
     def _xmatch(self, lookup_value, lookup_array: List, match_mode: int = 0, search_mode: int = 1):
         # TODO wildcard match
